@@ -398,6 +398,10 @@ def eval_coq(tag: str, preamble: str, terms: list[str], shard: int = 400, jobs: 
 
 
 # ----------------------------------------------------------------------------- worker
+MAX_FAULTS = 12          # per suite: hang / crash / oom outcomes after which the remaining cases are skipped
+FAULT_SECONDS = 240.0    # ... or this much time spent waiting for them
+
+
 def run_impl(module: str, suite: str, cases: list, per_case_timeout: float = 20.0, mem_mb: int = 2048,
              env_extra: dict | None = None):
     """Run module.SUITES[suite].impl(case) for every case in a subprocess; returns list of results.
@@ -416,7 +420,15 @@ def run_impl(module: str, suite: str, cases: list, per_case_timeout: float = 20.
         env.update({k: str(v) for k, v in env_extra.items()})
     with open(cpath, "wb") as fh:
         pickle.dump(cases, fh)
+    faults, t_faults = 0, 0.0
     while start < len(cases):
+        if faults >= MAX_FAULTS or t_faults > FAULT_SECONDS:
+            # a storm of hangs / memory blow-ups: the violation is established; the rest of the suite is not run so that
+            # the check still ends in reasonable time
+            for k in range(start, len(cases)):
+                results[k] = {"outcome": "skipped", "detail": f"not run after {faults} resource faults"}
+            break
+        t_launch = time.time()
         rpath = os.path.join(OUT, "work", tagbase + f".res.{start}.pkl")
         if os.path.exists(rpath):
             os.unlink(rpath)
@@ -446,6 +458,8 @@ def run_impl(module: str, suite: str, cases: list, per_case_timeout: float = 20.
                 kind = "oom"
             results[start] = {"outcome": kind, "detail": " | ".join(last)[-500:], "rc": pr.returncode}
             start += 1
+            faults += 1
+            t_faults += min(time.time() - t_launch, per_case_timeout + 5)
     try:
         os.unlink(cpath)
     except OSError:
